@@ -404,3 +404,113 @@ Print Assumptions C04_checked_reader_total.
 Theorem C04_checked_writer_total : forall d order p, write_ssa_c d order <> Panic p.
 Proof. exact write_ssa_c_no_panic. Qed.
 Print Assumptions C04_checked_writer_total.
+(* ---- cell encodings stated without the decoders (audit items c, d, f, g) ----
+   The hypotheses of the reading theorems above (col_ok / cell_denotes, ecol_ok / decode_ecell, style_row, event_row) are
+   phrased with the reader's own field decoders.  Proofs/SsaCells.v, SsaCellsTime.v and SsaCellsRows.v give, for every
+   kind of cell, the explicit set of spellings that denote a value -- no decoder in the definitions -- and prove it
+   equivalent to the decoder-based predicate, for every cell and every value (no side condition):
+     integers   int_spelling v cell : optional + or -, one or more digits 0 .. 9 (leading zeros allowed), positional
+                value, int64 range                                                   <-> atoi cell = Some v
+     booleans   bool_spelling true cell : an integer other than zero; bool_spelling false cell : every other cell
+                                                                                     <-> parse_bool cell = b
+     colours    colour_spelling o cell : the empty cell (None); or ampersand, H and a hexadecimal integer (optional
+                sign, digits 0-9 A-F a-f in any mixture of case, one or more digits, int64 range); or a decimal
+                integer; the low 32 bits of the two's complement value are alpha, blue, green, red
+                                                                                     <-> parse_color cell = Ok o
+     numbers    float_spelling z cell (z thousandths): optional sign, digits, optionally a dot and digits of which all
+                after the third are zeros, at least one digit, below 10^12, not the negative zero: the FAITHFUL
+                DOMAIN of the float model                                            <-> parse_float3 cell = Some z
+     times      time_spelling t cell : M:S, :M:S or H:M:S, each field an integer of any width with optional white
+                space around it, optionally a dot and an integer of at most three bytes counting 10^(3 - bytes)
+                milliseconds; the sum reduced to int64 modulo 2^64                   <-> parse_time cell = Some t
+     text       trimmed core cell : cell is core with white space (ASCII 9-13, 32, the listed UTF-8 sequences) on either
+                side and core neither begins nor ends with a white-space character  <-> trim_space cell = core
+   and cell_denotes / decode_ecell / style_row / event_row are equivalent to their spelled counterparts.  Every float
+   cell a reading theorem quantifies over is empty or inside the faithful domain (C04_float_cells_in_domain,
+   C04_style_row_floats_in_domain); outside it the model answers Err EOther (C04_float_outside_domain), which the
+   driver reports as NS.  notes/C04.md tabulates what the library does on each spelling, inside and outside. *)
+From Coq Require Import Strings.String.
+From Astisub Require Import Proofs.SsaCells Proofs.SsaCellsTime Proofs.SsaCellsRows.
+
+Theorem C04_int_spellings : forall v cell, int_spelling v cell <-> atoi cell = Some v.
+Proof. exact int_spelling_iff. Qed.
+Print Assumptions C04_int_spellings.
+Theorem C04_int_spellings_closed_form : forall (neg : bool) sg (k : nat) (n : N),
+  sign_of sg neg -> int64 (signed neg n) -> int_spelling (signed neg n) (sg ++ repeat 48%N k ++ itoa n).
+Proof. exact int_spelling_canonical. Qed.
+Print Assumptions C04_int_spellings_closed_form.
+Theorem C04_bool_spellings : forall b cell, bool_spelling b cell <-> parse_bool cell = b.
+Proof. exact bool_spelling_iff. Qed.
+Print Assumptions C04_bool_spellings.
+Theorem C04_colour_spellings : forall o cell, colour_spelling o cell <-> parse_color cell = Ok o.
+Proof. exact colour_spelling_iff. Qed.
+Print Assumptions C04_colour_spellings.
+(* audit item c: hexadecimal digits of either case mixed at will, any number of digits (six: no alpha byte) *)
+Theorem C04_colour_hex_any_case : forall c ds, color_ok c -> ds <> [] -> Forall hex_char ds ->
+  Z.of_N (hex_value ds) = color_value c -> parse_color (38%N :: 72%N :: ds) = Ok (Some c).
+Proof. exact colour_hex_any_case. Qed.
+Print Assumptions C04_colour_hex_any_case.
+Theorem C04_colour_decimal_any : forall c (k : nat) sg, color_ok c -> sign_of sg false ->
+  parse_color (sg ++ repeat 48%N k ++ itoa (Z.to_N (color_value c))) = Ok (Some c).
+Proof. exact colour_decimal_any. Qed.
+Print Assumptions C04_colour_decimal_any.
+Theorem C04_number_spellings : forall z cell, float_spelling z cell <-> parse_float3 cell = Some z.
+Proof. exact float_spelling_iff. Qed.
+Print Assumptions C04_number_spellings.
+Theorem C04_timer_spellings : forall z content, timer_spelling z content <-> parse_float3 (comma_to_dot content) = Some z.
+Proof. exact timer_spelling_iff. Qed.
+Print Assumptions C04_timer_spellings.
+Theorem C04_time_spellings : forall t cell, time_spelling t cell <-> parse_time cell = Some t.
+Proof. exact time_spelling_iff. Qed.
+Print Assumptions C04_time_spellings.
+(* audit item d: hours in any number of digits, with any number of leading zeros, up to the int64 range *)
+Theorem C04_time_any_hours : forall (k : nat) h m s c, (0 <= h)%Z -> (0 <= m < 60)%Z -> (0 <= s < 60)%Z -> (0 <= c < 100)%Z ->
+  (h * hour_ns + m * minute_ns + s * second_ns + c * 10000000 <= max_int64)%Z ->
+  parse_time ((repeat 48%N k ++ itoa_z h) ++ [58%N] ++ two m ++ [58%N] ++ two s ++ [46%N] ++ two c) =
+  Some (h * hour_ns + m * minute_ns + s * second_ns + c * 10000000)%Z.
+Proof. exact parse_time_hh_mm_ss_cc. Qed.
+Print Assumptions C04_time_any_hours.
+Theorem C04_time_two_digit_hours : forall h m s c, (0 <= h < 100)%Z -> (0 <= m < 60)%Z -> (0 <= s < 60)%Z -> (0 <= c < 100)%Z ->
+  parse_time (two h ++ [58%N] ++ two m ++ [58%N] ++ two s ++ [46%N] ++ two c) =
+  Some (h * hour_ns + m * minute_ns + s * second_ns + c * 10000000)%Z.
+Proof. exact parse_time_two_hours. Qed.
+Print Assumptions C04_time_two_digit_hours.
+Theorem C04_trimmed : forall core cell, trimmed core cell <-> trim_space cell = core.
+Proof. exact trimmed_iff. Qed.
+Print Assumptions C04_trimmed.
+Theorem C04_cell_denotes_spellings : forall a src cell, cell_denotes a src cell <-> cell_spelled a src cell.
+Proof. exact cell_denotes_spelling. Qed.
+Print Assumptions C04_cell_denotes_spellings.
+Theorem C04_event_cell_spellings : forall a cell v, decode_ecell a cell = Some v <-> ecell_spelled a v cell.
+Proof. exact decode_ecell_spelling. Qed.
+Print Assumptions C04_event_cell_spellings.
+Theorem C04_style_row_spellings : forall cols cells st, style_row cols cells st <-> style_row_spelled cols cells st.
+Proof. exact style_row_spelling. Qed.
+Print Assumptions C04_style_row_spellings.
+Theorem C04_event_row_spellings : forall cols init last ev, event_row cols init last ev <-> event_row_spelled cols init last ev.
+Proof. exact event_row_spelling. Qed.
+Print Assumptions C04_event_row_spellings.
+(* audit item g *)
+Theorem C04_float_cells_in_domain : forall x src cell, cell_denotes (AF x) src cell -> cell = [] \/ float_cell_in_domain cell.
+Proof. exact cell_denotes_float_in_domain. Qed.
+Print Assumptions C04_float_cells_in_domain.
+Theorem C04_style_row_floats_in_domain : forall cols cells st, style_row cols cells st -> Forall2 float_col_in_domain cols cells.
+Proof. exact style_row_floats_in_domain. Qed.
+Print Assumptions C04_style_row_floats_in_domain.
+Theorem C04_float_outside_domain : forall attr x cell s, sattr_of_name attr = Some (AF x) -> cell <> [] ->
+  ~ float_cell_in_domain cell -> style_cell attr cell s = Err EOther.
+Proof. exact style_cell_float_outside. Qed.
+Print Assumptions C04_float_outside_domain.
+
+Example C04_colour_mixed_case : parse_color (s2l "&H00ffFF"%string) = Ok (Some (mkAcolor 0 0 255 255)).
+Proof. vm_compute. reflexivity. Qed.
+Example C04_colour_six_digits : parse_color (s2l "&HFFFFFF"%string) = Ok (Some (mkAcolor 0 255 255 255)).
+Proof. vm_compute. reflexivity. Qed.
+Example C04_colour_above_32_bits : parse_color (s2l "&H123456789"%string) = Ok (Some (mkAcolor 35 69 103 137)).
+Proof. vm_compute. reflexivity. Qed.
+Example C04_time_two_digit_hours_example : parse_time (s2l "12:34:56.78"%string) = Some 45296780000000%Z.
+Proof. vm_compute. reflexivity. Qed.
+Example C04_time_three_digit_hours_example : parse_time (s2l "100:00:00.00"%string) = Some 360000000000000%Z.
+Proof. vm_compute. reflexivity. Qed.
+Example C04_number_outside_domain : parse_float3 (s2l "20.1234"%string) = None /\ parse_float3 (s2l "1e2"%string) = None.
+Proof. vm_compute. split; reflexivity. Qed.
